@@ -20,11 +20,10 @@ INFO = {
                    "recomputation shape: Full: update_nodes(start, end) recomputes nodes[p] = H(nodes[2p+1], nodes[2p+2]) for p in "
                    "parent(start)..=parent(end) and recurses to the root, set_range hands it exactly [index, index+count-1] with index = "
                    "capacity+start-1; Optimal: hash_couple(d, i) = H(get_node(d, i&!1), get_node(d, (i&!1)+1)) unconditionally, "
-                   "get_node = stored node or the level's cached default, update_hashes stores hash_couple(current) at (parent_depth, "
-                   "parent_index) and set/set_range hand it (index, 1) / (start, len); both constructors build the default cache as "
+                   "get_node = stored node or the level's cached default, update_hashes rehashes, level by level, every parent of the changed range [first>>1, last>>1] "
+                   "starting from (index, index+length-1) until depth 0, and set/set_range hand it (index, 1) / (start, len); both constructors build the default cache as "
                    "cache[l] = H(cache[l+1], cache[l+1]); root() is node 0 / get_node(0, 0).",
-    "not_decided": "equality of roots/leaves with the ideal tree as values over histories (numeric; Poseidon opaque), the iteration bounds "
-                   "inside OptimalMerkleTree::update_hashes (loop-carried index arithmetic), pmtree's internals",
+    "not_decided": "equality of roots/leaves with the ideal tree as values over histories (numeric; Poseidon opaque), pmtree's internals",
     "assumptions": ["pmtree's mutators are atomic on their own errors"],
 }
 
@@ -246,26 +245,53 @@ def check_recompute(ctx, fb):
         cv = [e2.value_of(p.store, p.ret) for p in ret_paths(e2.run(cl))]
         okg = len(cv) == 1 and cv[0][0] == "idx" and cv[0][1][0] == "field" and cv[0][1][2] == ("f", "cached_nodes")
     ctx.check(okg, "R06-3", "optimal::get_node", "stored node (depth, index) or the level's cached default", "get_node is %s" % sh(v, 200), loc(it))
-    # update_hashes stores hash_couple(current) at (parent_depth, parent_index)
+    # update_hashes(index, length): level by level from the leaves, for every parent p of the changed range
+    # [first>>1, last>>1]: nodes[(depth-1, p)] = hash_couple(depth, 2p); then the range is halved; until the root
     it = fb.need(ip + "update_hashes")
     ctx.touch(it)
     eng = Engine(fb, inline=lambda i: False, max_paths=4000)
-    ok = True
-    n = 0
-    for p in eng.run(it):
-        ins = p.calls(r"HashMap::<K, V, S, A>::insert$")
-        for c in ins:
-            n += 1
-            key, val = c[2][1], c[2][2]
-            if not (val[0] == "call" and val[1].endswith("hash_couple") and key[0] == "tuple"):
-                ok = False
-                continue
-            pd, pi = key[1]
-            cd, ci = val[2][1], val[2][2]
-            names = lambda t: [s[3] for s in subterms(t) if s[0] == "phi"]
-            if not ("parent_depth" in names(pd) and "parent_index" in names(pi) and "current_depth" in names(cd) and "current_index" in names(ci)):
-                ok = False
-    ctx.check(ok and n >= 1, "R06-3", "optimal::update_hashes", "nodes[(parent_depth, parent_index)] = hash_couple(current_depth, current_index)", "update_hashes stores something else (%d stores inspected)" % n, loc(it))
+    paths = eng.run(it)
+    why = None
+    inner = [p for p in paths if p.kind == "backedge" and p.calls(r"HashMap::<K, V, S, A>::insert$")]
+    outer = [p for p in paths if p.kind == "backedge" and not p.calls(r"HashMap::<K, V, S, A>::insert$")]
+    if len(inner) != 1 or len(outer) != 1:
+        why = "expected one level loop and one parent loop, found %d / %d loop bodies" % (len(outer), len(inner))
+    else:
+        p = inner[0]
+        c = p.calls(r"HashMap::<K, V, S, A>::insert$")[0]
+        key, val = c[2][1], c[2][2]
+        hc = p.calls(r"hash_couple$")
+        dphi = [s_ for s_ in subterms(key) if s_[0] == "phi" and s_[3] == "depth"]
+        rng = p.calls(r"RangeInclusive::<Idx>::new$")
+        it_item = None
+        for cc in p.calls(r"RangeInclusive<A>>::next$"):
+            it_item = ("unwrap", ("call", cc[1], cc[2]))
+        if not (dphi and rng and it_item):
+            why = "level loop shape not recognised"
+        else:
+            d = dphi[0]
+            lo, hi = rng[0][2]
+            fphi = [s_ for s_ in subterms(lo) if s_[0] == "phi" and s_[3] == "first"]
+            lphi = [s_ for s_ in subterms(hi) if s_[0] == "phi" and s_[3] == "last"]
+            if key != ("tuple", (("bin", "Sub", d, mk_const("usize", 1)), it_item)):
+                why = "parent stored at %s, specification (depth - 1, parent_index)" % sh(key, 100)
+            elif not (len(hc) == 1 and val == ("call", hc[0][1], hc[0][2]) and hc[0][2][1] == d and hc[0][2][2] == ("bin", "Shl", it_item, mk_const("i32", 1))):
+                why = "parent value is %s, specification hash_couple(depth, parent_index << 1)" % sh(val, 120)
+            elif not (fphi and lphi and lo == ("bin", "Shr", fphi[0], mk_const("i32", 1)) and hi == ("bin", "Shr", lphi[0], mk_const("i32", 1))):
+                why = "parents recomputed for %s ..= %s, specification (first >> 1) ..= (last >> 1): every parent of the changed range" % (sh(lo, 60), sh(hi, 60))
+            else:
+                o = outer[0]
+                nf, nl, nd = carried_value(it, o, "first"), carried_value(it, o, "last"), carried_value(it, o, "depth")
+                if nf != lo or nl != hi or nd != ("bin", "Sub", d, mk_const("usize", 1)):
+                    why = "after a level the range becomes (%s, %s) at depth %s, specification (first>>1, last>>1, depth-1)" % (sh(nf, 40), sh(nl, 40), sh(nd, 40))
+                elif fphi[0][4] != P(2) or lphi[0][4] != ("bin", "Sub", ("bin", "Add", P(2), P(3)), mk_const("usize", 1)) or d[4] != F(P(1), "depth"):
+                    why = "the climb starts with (first, last, depth) = (%s, %s, %s), specification (index, index + length - 1, self.depth)" % (sh(fphi[0][4], 40), sh(lphi[0][4], 60), sh(d[4], 40))
+                else:
+                    g = [(a_, v) for a_, v in o.conds() if a_[0] == "b" and a_[1] == ("bin", "Gt", d, mk_const("usize", 0))]
+                    if not (g and g[0][1] is True):
+                        why = "the level loop is not `while depth > 0`"
+    ctx.check(why is None, "R06-3", "optimal::update_hashes", "for every level: nodes[(depth-1, p)] = hash_couple(depth, 2p) for p in first>>1 ..= last>>1; range halved; until depth 0",
+              "update_hashes: %s (a range write must rehash every parent of the written range on every level)" % why, loc(it))
     for m, args in (("set", (P(2), mk_const("usize", 1))), ("set_range", (P(2), ("len", P(3))))):
         it = c15.get(fb, "optimal", m)
         e3 = Engine(fb, inline=lambda i: False)
@@ -300,7 +326,19 @@ def check_recompute(ctx, fb):
             rec = c
     ctx.check(ok, "R06-3", "full::update_nodes", "nodes[p] = H(nodes[2p+1], nodes[2p+2]) for each parent p of the range", why, loc(it))
     okr = rec is not None and all("Shr" in sh(a, 200) for a in rec[2][1:])
-    ctx.check(okr, "R06-3", "full::update_nodes recursion", "recurses on (parent(start), parent(end)) until the root", "recursion arguments %s" % ([sh(a, 60) for a in rec[2][1:]] if rec else None), loc(it))
+    # the climb is unconditional: every path that recomputed a level goes on to the level above (no early exit)
+    eng_r = Engine(fb, inline=inline_only(r"FullMerkleTree::<H>::(parent|first_child|levels)$"))
+    for p in eng_r.run(it):
+        if p.kind != "return":
+            continue
+        looped = any(e[0] == "loop" for e in p.trace)
+        if looped and not p.calls(r"update_nodes$"):
+            okr = False
+        extra = [(a, v) for a, v in p.conds() if looped and a[0] == "b" and not (a[1][0] == "bin" and a[1][1] in ("Eq", "Ne") and (cint(a[1][3]) == 0 or "trailing_zeros" in sh(a[1], 400)))
+                 and not (a[0] == "b" and a[1][0] == "call" and a[1][1].endswith("::is_empty"))]
+        if extra:
+            okr = False
+    ctx.check(okr, "R06-3", "full::update_nodes recursion", "recurses on (parent(start), parent(end)) until the root, unconditionally", "the climb to the root is conditional or missing on some path (recursion arguments %s): upper levels and the root can stay stale after a range write" % ([sh(a, 60) for a in rec[2][1:]] if rec else None), loc(it))
     it = c15.get(fb, "full", "set_range")
     e4 = Engine(fb, inline=inline_only(r"ZerokitMerkleTree>::capacity$"))
     cs = [c for p in e4.run(it) for c in p.calls(r"update_nodes$")]
